@@ -108,3 +108,65 @@ Theorem C19_cors_unrepaired_refuted :
   (cors_unrepaired [B "*"] [] = Some [] /\ cors_spec_req [B "*"] (origin_of []) = None).
 Proof. exact cors_unrepaired_refuted. Qed.
 Print Assumptions C19_cors_unrepaired_refuted.
+
+(* ---- the request as a whole: [meth] ranges over ALL methods, [hs] over ALL lists of header lines
+   (several Origin lines, preflight headers, anything else) *)
+
+(* the Access-Control-* headers of the answer are none at all, or exactly one
+   Access-Control-Allow-Origin with exactly one value, the request's Origin,
+   non-empty and whitelisted *)
+Theorem C19_cors_all_requests : forall (m : muxd) (wl : list bytes) (meth : bytes) (hs : list (bytes * bytes)),
+  resp_ac m wl meth hs = [] \/
+  (let o := header_get h_origin hs in
+   resp_ac m wl meth hs = [(acao_name, [o])] /\ m = MuxPass /\ o <> [] /\ (In o wl \/ In (B "*") wl)).
+Proof. exact resp_ac_only_when_whitelisted. Qed.
+Print Assumptions C19_cors_all_requests.
+
+(* the decision depends on the Origin and the whitelist only: not on the
+   method, not on preflight or any other header lines *)
+Theorem C19_cors_origin_only : forall (m : muxd) (wl : list bytes) (meth meth' : bytes) (hs hs' : list (bytes * bytes)),
+  header_get h_origin hs = header_get h_origin hs' ->
+  resp_ac m wl meth hs = resp_ac m wl meth' hs'.
+Proof. exact resp_ac_origin_only. Qed.
+Print Assumptions C19_cors_origin_only.
+
+(* a whitelisted Origin gets the header whenever the handler runs *)
+Theorem C19_cors_complete : forall (wl : list bytes) (meth : bytes) (hs : list (bytes * bytes)),
+  allowedb wl (header_get h_origin hs) = true ->
+  resp_ac MuxPass wl meth hs = [(acao_name, [header_get h_origin hs])].
+Proof. exact resp_ac_complete. Qed.
+Print Assumptions C19_cors_complete.
+
+(* the model meets the executable clause [ac_spec] that the judge evaluates on
+   the real response's headers, and that clause means what the property says *)
+Theorem C19_cors_meets_spec : forall (m : muxd) (wl : list bytes) (meth : bytes) (hs : list (bytes * bytes)),
+  ac_spec wl (header_values h_origin hs) (resp_ac m wl meth hs) = true.
+Proof. exact resp_ac_meets_spec. Qed.
+Print Assumptions C19_cors_meets_spec.
+
+Theorem C19_ac_spec_sound : forall (wl origins : list bytes) (acs : list (bytes * list bytes)),
+  ac_spec wl origins acs = true ->
+  (acs <> [] -> exists o, In o origins /\ o <> [] /\ (In o wl \/ In (B "*") wl)) /\
+  (forall n vs, In (n, vs) acs -> name_eqb n acao_name = true ->
+     exists o, vs = [o] /\ In o origins /\ o <> [] /\ (In o wl \/ In (B "*") wl)).
+Proof. exact ac_spec_sound. Qed.
+Print Assumptions C19_ac_spec_sound.
+
+(* what is sent as body is the file's bytes or, for HEAD, nothing *)
+Theorem C19_sent_body : forall (meth : bytes) (a : answer) (b : bytes),
+  sent_body meth a = Some b -> b = [] \/ content a = Some b.
+Proof. exact sent_body_content. Qed.
+Print Assumptions C19_sent_body.
+
+(* a handler that answers preflights itself and writes the Origin there
+   without asking the whitelist is rejected by the clause *)
+Theorem C19_cors_preflight_set_refuted :
+  (let hs := [(B "Origin", B "https://evil.test"); (B "Access-Control-Request-Method", B "GET")] in
+   ac_spec [B "http://a.test"] (header_values h_origin hs)
+           (resp_ac_preflight MuxPass [B "http://a.test"] (B "OPTIONS") hs) = false /\
+   ac_spec [B "http://a.test"] (header_values h_origin hs)
+           (resp_ac MuxPass [B "http://a.test"] (B "OPTIONS") hs) = true) /\
+  (let hs := [(B "access-control-request-method", B "PUT")] in
+   ac_spec [B "*"] (header_values h_origin hs) (resp_ac_preflight MuxPass [B "*"] (B "OPTIONS") hs) = false).
+Proof. exact resp_ac_preflight_refuted. Qed.
+Print Assumptions C19_cors_preflight_set_refuted.
